@@ -161,4 +161,20 @@ PROPS = {
         "require_counters": ["post_images", "pre_images", "vm_multiplies", "mv_multiplies", "image_mode_bool", "image_mode_mtdist", "image_mode_evplus"],
         "assumptions": ASSUME_COMMON,
     },
+    "C08": {
+        "rule": ("each case: random domain (<=64 states, 1-5 variables of sizes 2-4), mode boolean / MT-integer distance / EV+ distance; "
+                 "relation = union of 1-5 random events (guards, constants, non-deterministic choices, +-1 steps, self loops, dead "
+                 "ends, untouched variables, events whose top variable is unchanged) or a random table, held in a fully-, quasi- or "
+                 "identity-reduced relation forest (identity in half of the cases); 0-3 (or N/2) initial states, optional distance "
+                 "offsets; 1-4 successive relations/initial sets through the SAME forests and operation objects (stale split state), "
+                 "occasional cache clears; REACHABLE_TRAD_FS, REACHABLE_TRAD_NOFS, REACHABLE_SATUR forward and backward each compared "
+                 "at every state with the explicit closure / shortest distances, and with each other by ==; operands re-evaluated; "
+                 "forests audited.  non-trivial = closure strictly between the initial set and the whole space; distinct = hash(shape, config, tables)"),
+        "passes": {
+            "quick": [P("main", "asan", 1200)],
+            "thorough": [P("main", "asan", 30000)],
+        },
+        "require_counters": ["runs_REACHABLE_TRAD_FS", "runs_REACHABLE_TRAD_NOFS", "runs_REACHABLE_SATUR", "algorithm_agreements", "repeated_calls_same_forests"],
+        "assumptions": ASSUME_COMMON,
+    },
 }
